@@ -90,6 +90,15 @@ static void join(int64_t sec, int64_t fs) {
   VT_GUARD(ub, ok2 = parse("%Y-%m-%dT%H:%M:%E*S%Ez", text, g_utc, &r2));
   out->emit("{\"e\":\"ParseD\"" + hdr + ",\"ok\":" + (ok2 && !ub ? "1" : "0") + ",\"c\":" + W(ok2 && !ub ? (vt::i128)r2.time_since_epoch().count() : 0) +
             ",\"ub\":" + std::to_string(ub) + "}");
+  // the text carries its own offset, so the zone handed to parse() is irrelevant - also at the limits of the range
+  static const time_zone kOther[2] = {fixed_time_zone(seconds(14 * 3600)), fixed_time_zone(seconds(-12 * 3600))};
+  for (const time_zone& oz : kOther) {
+    TPD r3;
+    bool ok3 = false;
+    VT_GUARD(ub, ok3 = parse("%Y-%m-%dT%H:%M:%E*S%Ez", text, oz, &r3));
+    out->emit("{\"e\":\"ParseD\"" + hdr + ",\"ok\":" + (ok3 && !ub ? "1" : "0") + ",\"c\":" + W(ok3 && !ub ? (vt::i128)r3.time_since_epoch().count() : 0) +
+              ",\"ub\":" + std::to_string(ub) + ",\"otherzone\":1}");
+  }
 }
 
 template <typename Rep, typename Ratio>
@@ -150,6 +159,28 @@ int main(int argc, char** argv) {
   panel<int64_t, std::ratio<1, 60>>(r, reps);
   panel<int64_t, std::ratio<1, 90000>>(r, reps);
   panel<int64_t, std::ratio<1, 7>>(r, reps);
+  // texts one second inside / outside the range of time_point<seconds>, written with an explicit offset and parsed with
+  // zones east and west of UTC (the limits are those of the instant, whatever zone is supplied)
+  {
+    struct Lit { const char* text; int delta; };   // delta: seconds beyond the nearest limit (0 = the limit itself, <0 inside)
+    const Lit lits[] = {{"292277026596-12-04T15:30:07+00:00", 0}, {"292277026596-12-04T15:30:08+00:00", 1}, {"292277026596-12-04T15:30:06+00:00", -1},
+                        {"292277026596-12-05T05:30:07+14:00", 0}, {"292277026596-12-05T05:30:08+14:00", 1}, {"292277026596-12-04T03:30:08-12:00", 1},
+                        {"-292277022657-01-27T08:29:52+00:00", 0}, {"-292277022657-01-27T08:29:51+00:00", 1}, {"-292277022657-01-27T08:29:53+00:00", -1},
+                        {"-292277022657-01-26T20:29:51-12:00", 1}, {"-292277022657-01-27T22:29:52+14:00", 0}, {"292277026596-12-04T15:30:07.9+00:00", 0},
+                        {"-292277022657-01-27T08:29:51.9+00:00", 1}};
+    const time_zone zs[3] = {g_utc, fixed_time_zone(seconds(14 * 3600)), fixed_time_zone(seconds(-12 * 3600))};
+    for (const Lit& l : lits)
+      for (int zi = 0; zi < 3; ++zi) {
+        time_point<seconds> tp;
+        int ub;
+        bool ok = false;
+        VT_GUARD(ub, ok = parse("%Y-%m-%dT%H:%M:%E*S%Ez", l.text, zs[zi], &tp));
+        bool hi = l.text[0] != '-';
+        out->emit(std::string("{\"e\":\"ParseLimit\",\"text\":\"") + l.text + "\",\"zone\":" + std::to_string(zi) + ",\"hi\":" + (hi ? "1" : "0") +
+                  ",\"delta\":" + std::to_string(l.delta) + ",\"ok\":" + (ok && !ub ? "1" : "0") + ",\"c\":" +
+                  W(ok && !ub ? (vt::i128)tp.time_since_epoch().count() : 0) + ",\"ub\":" + std::to_string(ub) + "}");
+      }
+  }
   fprintf(stderr, "drv_split: %llu events\n", (unsigned long long)sh.count);
   sh.close();
   return 0;
